@@ -1175,6 +1175,18 @@ class GenA:
         inject_at = None
         if self.params.get("faults", True) and rng.random() < 0.3:
             inject_at = rng.randrange(n_ops)
+            # an asynchronous exception may leave a half-built Dimension registered (the library
+            # registers in __new__ and initialises in __init__); a later Dimension.define iterates over
+            # every known dimension and would die half-way, corrupting the whole dimension system - a
+            # consequence of F2 no listed property is about.  So: either an injection or new
+            # fundamental dimensions in one run, never both.
+            for k in ("dim_define", "dim_epoch"):
+                if k in w:
+                    w[k] = 0
+            weights = [w[k] for k in kinds]
+            if not any(weights):
+                w["u_mul"] = 1
+                weights = [w[k] for k in kinds]
         guard = 0
         while len(self.ops) < n_ops and guard < n_ops * 10:
             guard += 1
